@@ -246,7 +246,12 @@ pub fn run(rep: &mut Report, thorough: bool) {
                 // a small / zero advertised window on every segment (the window is not stream data
                 // and an answer is not paced by it)
                 scen.push((si, c.clone(), None, 1000, 7));
-                scen.push((si, c, None, 1000, 8));
+                scen.push((si, c.clone(), None, 1000, 8));
+                // TCP options on every segment (NOP NOP timestamp: 12 bytes; 40 bytes of NOPs) and
+                // IPv4 options in front of every segment: headers are not stream data
+                scen.push((si, c.clone(), None, 1000, 9));
+                scen.push((si, c.clone(), None, 1000, 10));
+                scen.push((si, c, None, 1000, 11));
             }
         }
     }
@@ -275,6 +280,19 @@ pub fn run(rep: &mut Report, thorough: bool) {
                         let w: u16 = if *pad == 7 { 16 } else { 0 };
                         fr[34 + 14..34 + 16].copy_from_slice(&w.to_be_bytes());
                         refresh_checksums(&mut fr);
+                    } else if *pad == 9 || *pad == 10 {
+                        let o: Vec<u8> = if *pad == 9 { vec![1, 1, 8, 10, 0, 0, 0, 7, 0, 0, 0, 0] } else { vec![1; 40] };
+                        let tl = u16::from_be_bytes([fr[16], fr[17]]) + o.len() as u16;
+                        fr[16..18].copy_from_slice(&tl.to_be_bytes());
+                        fr[34 + 12] = (((5 + o.len() / 4) as u8) << 4) | (fr[34 + 12] & 0x0f);
+                        let tail = fr.split_off(54);
+                        fr.extend_from_slice(&o);
+                        fr.extend_from_slice(&tail);
+                        refresh_checksums(&mut fr);
+                    } else if *pad == 11 {
+                        if let Some(g) = with_ipv4_options(&fr, &[1, 1, 1, 1]) {
+                            fr = g;
+                        }
                     } else if *pad >= 3 && *pad <= 5 {
                         // flow `f` is IPv4 without options: the TCP header starts at byte 34
                         let u: u16 = match *pad {
@@ -353,7 +371,7 @@ pub fn run(rep: &mut Report, thorough: bool) {
         &mut rep.sink,
     );
     rep.transitions += scen.len() as u64;
-    rep.stage("compositions", "streams x (every 1-cut [x zero-length insertion], every 2-cut of the selected streams, every 1-cut again in frames zero-padded to 60 bytes / followed by a 7-byte trailer / with a stale urgent-pointer field (stream length, 5) / with URG and pointer 3 / with FIN on the last segment / with an advertised window of 16 and of 0, every 1-cut again with sequence numbers wrapping past 2^32 inside the request)", scen.len() as u64, t0);
+    rep.stage("compositions", "streams x (every 1-cut [x zero-length insertion], every 2-cut of the selected streams, every 1-cut again in frames zero-padded to 60 bytes / followed by a 7-byte trailer / with a stale urgent-pointer field (stream length, 5) / with URG and pointer 3 / with FIN on the last segment / with an advertised window of 16 and of 0 / with 12 and 40 bytes of TCP options / behind IPv4 options, every 1-cut again with sequence numbers wrapping past 2^32 inside the request)", scen.len() as u64, t0);
     parser_bfs(rep, &cfg, &f, ack, &cookies, thorough);
 }
 
